@@ -146,7 +146,7 @@ func (f *boolFn) collect(e ast.Expr) {
 				return
 			}
 			if t := f.info.TypeOf(x.X); t != nil {
-				if b, ok := t.Underlying().(*types.Basic); ok && b.Info()&types.IsInteger != 0 && !okx && !oky {
+				if b, ok := t.Underlying().(*types.Basic); ok && b.Info()&(types.IsInteger|types.IsString|types.IsFloat) != 0 && !okx && !oky {
 					f.relKey(x.X, x.Y)
 					return
 				}
@@ -211,7 +211,7 @@ func (f *boolFn) eval(e ast.Expr, env absEnv) bool {
 				return v
 			}
 			if t := f.info.TypeOf(x.X); t != nil {
-				if b, ok := t.Underlying().(*types.Basic); ok && b.Info()&types.IsInteger != 0 && !okx && !oky {
+				if b, ok := t.Underlying().(*types.Basic); ok && b.Info()&(types.IsInteger|types.IsString|types.IsFloat) != 0 && !okx && !oky {
 					return relHolds(env.rel[f.relKey(x.X, x.Y)], x.Op)
 				}
 			}
